@@ -173,7 +173,6 @@ Proof.
 Qed.
 
 Section Family.
-Variable rep : bool.
 Variable parts : list psi.
 Hypothesis Hsame : same_info parts = true.
 
@@ -262,18 +261,18 @@ Qed.
 
 (* the state after merging the parts S: its header is that of a part k of S (the main part if S
    has one), its clients are those of the parts of S, each part once *)
-Definition carrier (S : list nat) (st : psi) (k : nat) (pk : psi) : Prop :=
+Definition carrier (rep : bool) (S : list nat) (st : psi) (k : nat) (pk : psi) : Prop :=
   In k S /\ part k = Some pk /\ hdr st = hdr pk
   /\ (forall j pj, In j S -> part j = Some pj -> is_main pj = true -> is_main pk = true)
   /\ (if rep then p_received st = mask_union S else p_received st = p_received pk).
 
-Definition Inv (S : list nat) (st : psi) : Prop :=
+Definition Inv (rep : bool) (S : list nat) (st : psi) : Prop :=
   tok st = tok p0 /\ ver st = ver p0
   /\ (forall j, In j S -> (j < length parts)%nat)
-  /\ (exists k pk, carrier S st k pk)
+  /\ (exists k pk, carrier rep S st k pk)
   /\ Permutation (cl st) (clients_of parts (nodup Nat.eq_dec S)).
 
-Lemma Inv_init i p : part i = Some p -> Inv [i] p.
+Lemma Inv_init rep i p : part i = Some p -> Inv rep [i] p.
 Proof.
   intros Hp. destruct (same_each _ _ Hp) as (Ht & Hv & _).
   split; [exact Ht|]. split; [exact Hv|]. split.
@@ -287,7 +286,7 @@ Proof.
 Qed.
 
 (* merge for two states of the same token and (multipart) version *)
-Lemma merge_gen_same a b : tok a = tok b -> ver a = ver b -> is_multipart (ver a) = true ->
+Lemma merge_gen_same rep a b : tok a = tok b -> ver a = ver b -> is_multipart (ver a) = true ->
   merge_gen rep a b =
   if Z.land (p_received a) (p_received b) =? p_received b then (a, Ok tt)
   else if negb (Z.land (p_received a) (p_received b) =? 0) then (a, Err OverlappingInfos)
@@ -301,6 +300,9 @@ Proof.
   replace (siv_eqb (i_version (p_info a)) (i_version (p_info a))) with true by (symmetry; apply siv_eqb_eq; reflexivity).
   cbn [negb]. rewrite Hm. cbn [negb]. reflexivity.
 Qed.
+
+Lemma cl_mk i cs r : cl {| p_info := set_clients i cs; p_received := r |} = cs.
+Proof. reflexivity. Qed.
 
 Lemma hdr_set_clients i cs : set_clients (set_clients i cs) [] = set_clients i [].
 Proof. reflexivity. Qed.
@@ -317,8 +319,8 @@ Proof.
 Qed.
 
 (* one merge step keeps the invariant; without the repair the part must be new *)
-Lemma Inv_step S st i p : Inv S st -> part i = Some p -> (rep = false -> ~ In i S) ->
-  exists st', merge_gen rep st p = (st', Ok tt) /\ Inv (i :: S) st'.
+Lemma Inv_step rep S st i p : Inv rep S st -> part i = Some p -> (rep = false -> ~ In i S) ->
+  exists st', merge_gen rep st p = (st', Ok tt) /\ Inv rep (i :: S) st'.
 Proof.
   intros (Ht & Hv & Hval & (k & pk & Hk & Hpk & Hh & Hprio & Hrecv) & Hperm) Hp Hnew.
   destruct (same_each _ _ Hp) as (Htp & Hvp & Hwf).
@@ -377,8 +379,7 @@ Proof.
               exfalso. exact (Hnomain j pj Hj Hpj Hmain).
            ++ destruct rep; [|reflexivity]. cbn [p_received mask_union fold_right]. fold (mask_union S).
               rewrite (mask_part _ _ Hp), Hrecv. reflexivity.
-        -- unfold cl at 1. cbn [p_info]. rewrite Hcl. fold (cl p). fold (cl st).
-           apply Permutation_app_head. exact Hperm.
+        -- rewrite cl_mk, Hcl. apply Permutation_app_head. exact Hperm.
       * (* not swapped *)
         eexists; split; [reflexivity|].
         split; [exact Ht|]. split; [exact Hv|]. split; [exact Hval'|]. split.
@@ -391,8 +392,221 @@ Proof.
               exact (bit0_overlap _ _ Hdis Esw (is_main_bit _ Hmain)).
            ++ destruct rep; [|exact Hrecv]. cbn [p_received mask_union fold_right]. fold (mask_union S).
               rewrite (mask_part _ _ Hp), Hrecv. apply Z.lor_comm.
-        -- unfold cl at 1. cbn [p_info]. rewrite Hcl. fold (cl p). fold (cl st).
-           rewrite Permutation_app_comm. apply Permutation_app_head. exact Hperm.
+        -- rewrite cl_mk, Hcl. apply (Permutation_trans (Permutation_app_comm _ _)).
+           apply Permutation_app_head. exact Hperm.
+Qed.
+
+
+(* ---------- along an order ---------- *)
+
+Lemma mem_nat_In i l : mem_nat i l = true <-> In i l.
+Proof.
+  unfold mem_nat. rewrite existsb_exists. split.
+  - intros [x [Hx E]]. apply Nat.eqb_eq in E. subst. exact Hx.
+  - intros H. exists i. split; [exact H|apply Nat.eqb_refl].
+Qed.
+
+Lemma has_repeat_NoDup o : has_repeat o = false <-> NoDup o.
+Proof.
+  induction o as [|i o IH]; cbn [has_repeat].
+  - split; [constructor|reflexivity].
+  - rewrite orb_false_iff, IH. split.
+    + intros [Hm Hn]. constructor; [|exact Hn]. intros Hin. apply mem_nat_In in Hin. congruence.
+    + intros H. inversion H as [|? ? Hni Hn]; subst. split; [|exact Hn].
+      destruct (mem_nat i o) eqn:E; [|reflexivity]. apply mem_nat_In in E. contradiction.
+Qed.
+
+Lemma same_set_In o1 o2 : same_set o1 o2 = true -> forall x, In x o1 <-> In x o2.
+Proof.
+  unfold same_set. intros H. apply andb_true_iff in H as [H1 H2].
+  rewrite forallb_forall in H1, H2. intros x. split; intros Hx.
+  - apply mem_nat_In, H1, Hx.
+  - apply mem_nat_In, H2, Hx.
+Qed.
+
+Lemma fold_Inv rep : forall o' S st, Inv rep S st ->
+  (forall j, In j o' -> (j < length parts)%nat) ->
+  (rep = false -> NoDup o' /\ forall j, In j o' -> ~ In j S) ->
+  exists st', fold_left (merge_step rep parts) o' (Some st) = Some st' /\ Inv rep (rev o' ++ S) st'.
+Proof.
+  induction o' as [|j o' IH]; intros S st HI Hval Hnew.
+  - exists st. split; [reflexivity|exact HI].
+  - assert (Hj : (j < length parts)%nat) by (apply Hval; left; reflexivity).
+    destruct (nth_error parts j) as [p|] eqn:Hp; [|apply nth_error_None in Hp; lia].
+    destruct (Inv_step rep S st j p HI Hp) as [st1 [Hm HI1]].
+    { intros Hr. destruct (Hnew Hr) as [_ H]. apply H. left; reflexivity. }
+    cbn [fold_left]. unfold merge_step at 2. rewrite Hp, Hm.
+    destruct (IH (j :: S) st1 HI1) as [st' [Hf HI']].
+    { intros x Hx. apply Hval. right; exact Hx. }
+    { intros Hr. destruct (Hnew Hr) as [Hnd Hni]. inversion Hnd as [|? ? Hjo Hnd']; subst.
+      split; [exact Hnd'|]. intros x Hx [<-|Hxs]; [contradiction|].
+      apply (Hni x); [right; exact Hx|exact Hxs]. }
+    exists st'. split; [exact Hf|]. cbn [rev]. rewrite <- app_assoc. exact HI'.
+Qed.
+
+Lemma order_ok_inv o : order_ok parts o = true ->
+  exists i o', o = i :: o' /\ forall j, In j o -> (j < length parts)%nat.
+Proof.
+  unfold order_ok. destruct o as [|i o']; [discriminate|]. intros H.
+  exists i, o'. split; [reflexivity|]. rewrite forallb_forall in H.
+  intros j Hj. apply Nat.ltb_lt, H, Hj.
+Qed.
+
+Lemma merged_Inv rep o : order_ok parts o = true -> (rep = false -> has_repeat o = false) ->
+  exists st S, merged rep parts o = Some st /\ Inv rep S st /\ (forall x, In x S <-> In x o).
+Proof.
+  intros Hok Hrep. destruct (order_ok_inv o Hok) as (i & o' & -> & Hval).
+  assert (Hi : (i < length parts)%nat) by (apply Hval; left; reflexivity).
+  destruct (nth_error parts i) as [p|] eqn:Hp; [|apply nth_error_None in Hp; lia].
+  destruct (fold_Inv rep o' [i] p (Inv_init rep i p Hp)) as [st [Hf HI]].
+  { intros j Hj. apply Hval. right; exact Hj. }
+  { intros Hr. specialize (Hrep Hr). apply has_repeat_NoDup in Hrep.
+    inversion Hrep as [|? ? Hni Hnd]; subst. split; [exact Hnd|].
+    intros j Hj [<-|[]]. contradiction. }
+  exists st, (rev o' ++ [i]). split; [cbn [merged]; rewrite Hp; exact Hf|]. split; [exact HI|].
+  intros x. rewrite in_app_iff, <- in_rev. cbn [In]. tauto.
+Qed.
+
+(* ---------- the state is a function of the set of parts ---------- *)
+
+Lemma mask_union_bit S n : Z.testbit (mask_union S) n = existsb (fun i => Z.testbit (mask i) n) S.
+Proof.
+  induction S as [|i S IH]; cbn [mask_union fold_right existsb]; [apply Z.bits_0|].
+  fold (mask_union S). rewrite Z.lor_spec, IH. reflexivity.
+Qed.
+
+Lemma existsb_same_set {A} (f : A -> bool) l1 l2 : (forall x, In x l1 <-> In x l2) ->
+  existsb f l1 = existsb f l2.
+Proof.
+  intros H. apply eq_true_iff_eq. rewrite !existsb_exists. split; intros [x [Hx Hf]]; exists x; split; auto; apply H; exact Hx.
+Qed.
+
+Lemma mask_union_set S1 S2 : (forall x, In x S1 <-> In x S2) -> mask_union S1 = mask_union S2.
+Proof.
+  intros H. apply Z.bits_inj. intros n. rewrite !mask_union_bit. apply existsb_same_set, H.
+Qed.
+
+Lemma clients_of_set S1 S2 : (forall x, In x S1 <-> In x S2) ->
+  Permutation (clients_of parts (nodup Nat.eq_dec S1)) (clients_of parts (nodup Nat.eq_dec S2)).
+Proof.
+  intros H. unfold clients_of. apply Permutation_flat_map.
+  apply NoDup_Permutation; try apply NoDup_nodup.
+  intros x. rewrite !nodup_In. apply H.
+Qed.
+
+Lemma carrier_hdr rep S1 S2 st1 st2 k1 q1 k2 q2 :
+  carrier rep S1 st1 k1 q1 -> carrier rep S2 st2 k2 q2 -> (forall x, In x S1 <-> In x S2) ->
+  hdr st1 = hdr st2.
+Proof.
+  intros (Hk1 & Hq1 & Hh1 & Hp1 & _) (Hk2 & Hq2 & Hh2 & Hp2 & _) Hset.
+  rewrite Hh1, Hh2. apply (same_compat k1 k2); [exact Hq1|exact Hq2|].
+  destruct (is_main q1) eqn:E1, (is_main q2) eqn:E2; try reflexivity.
+  - discriminate (Hp2 k1 q1 (proj1 (Hset k1) Hk1) Hq1 E1).
+  - discriminate (Hp1 k2 q2 (proj2 (Hset k2) Hk2) Hq2 E2).
+Qed.
+
+Definition info_of (r : res unit (sinfo * psi)) : res unit sinfo :=
+  match r with Ok (i, _) => Ok i | Err e => Err e | Panic s => Panic s | OutOfFuel => OutOfFuel end.
+
+Lemma sort_info_hdr s : sort_info (p_info s) = set_clients (hdr s) (sort_clients (cl s)).
+Proof. reflexivity. Qed.
+
+Lemma num_clients_hdr s : i_num_clients (p_info s) = i_num_clients (hdr s).
+Proof. reflexivity. Qed.
+
+Lemma get_info_equiv s1 s2 : hdr s1 = hdr s2 -> Permutation (cl s1) (cl s2) ->
+  info_of (get_info s1) = info_of (get_info s2).
+Proof.
+  intros Hh Hp. unfold get_info. fold (cl s1) (cl s2).
+  rewrite (Permutation_length Hp), !num_clients_hdr, !sort_info_hdr, Hh, (sort_clients_canonical _ _ Hp).
+  destruct (i32_max <? _); [reflexivity|]. destruct (negb _); reflexivity.
+Qed.
+
+(* any two orders over the same set of parts end in the same state, up to the order of the clients *)
+Theorem merge_order_free rep o1 o2 :
+  order_ok parts o1 = true -> order_ok parts o2 = true -> same_set o1 o2 = true ->
+  (rep = false -> has_repeat o1 = false /\ has_repeat o2 = false) ->
+  exists s1 s2, merged rep parts o1 = Some s1 /\ merged rep parts o2 = Some s2
+    /\ hdr s1 = hdr s2 /\ Permutation (cl s1) (cl s2)
+    /\ (rep = true -> p_received s1 = p_received s2)
+    /\ info_of (get_info s1) = info_of (get_info s2).
+Proof.
+  intros H1 H2 Hs Hrep.
+  destruct (merged_Inv rep o1 H1) as (s1 & S1 & Hm1 & HI1 & HS1); [intros Hr; apply (Hrep Hr)|].
+  destruct (merged_Inv rep o2 H2) as (s2 & S2 & Hm2 & HI2 & HS2); [intros Hr; apply (Hrep Hr)|].
+  assert (Hset : forall x, In x S1 <-> In x S2).
+  { intros x. rewrite HS1, HS2. apply same_set_In, Hs. }
+  destruct HI1 as (_ & _ & _ & (k1 & q1 & Hc1) & Hperm1).
+  destruct HI2 as (_ & _ & _ & (k2 & q2 & Hc2) & Hperm2).
+  assert (Hh : hdr s1 = hdr s2) by exact (carrier_hdr rep S1 S2 s1 s2 k1 q1 k2 q2 Hc1 Hc2 Hset).
+  assert (Hp : Permutation (cl s1) (cl s2)).
+  { rewrite Hperm1, Hperm2. apply clients_of_set, Hset. }
+  exists s1, s2. split; [exact Hm1|]. split; [exact Hm2|]. split; [exact Hh|]. split; [exact Hp|]. split.
+  - intros ->. destruct Hc1 as (_ & _ & _ & _ & Hr1). destruct Hc2 as (_ & _ & _ & _ & Hr2).
+    rewrite Hr1, Hr2. apply mask_union_set, Hset.
+  - apply get_info_equiv; assumption.
+Qed.
+
+(* complete exactly when the parts merged carry as many clients as the (main) part announces;
+   the info handed out then lists exactly those clients, each part's clients once, sorted *)
+Theorem merge_complete_gen rep o m pm :
+  order_ok parts o = true -> (rep = false -> has_repeat o = false) ->
+  In m o -> nth_error parts m = Some pm ->
+  (forall j pj, In j o -> nth_error parts j = Some pj -> is_main pj = true -> is_main pm = true) ->
+  Z.of_nat (length (received_clients parts o)) <= i32_max ->
+  exists st, merged rep parts o = Some st /\
+    match get_info st with
+    | Ok (i, st') =>
+      Z.of_nat (length (received_clients parts o)) = i_num_clients (p_info pm)
+      /\ i_clients i = sort_clients (received_clients parts o)
+      /\ Permutation (i_clients i) (received_clients parts o)
+      /\ set_clients i [] = hdr pm
+      /\ take_info st = Ok (i, {| p_info := default_info; p_received := u64_ones |})
+    | Err _ => Z.of_nat (length (received_clients parts o)) <> i_num_clients (p_info pm)
+    | _ => False
+    end.
+Proof.
+  intros Hok Hrep Hm Hpm Hmain Hlen.
+  destruct (merged_Inv rep o Hok Hrep) as (st & S & Hmg & HI & HS).
+  exists st. split; [exact Hmg|].
+  destruct HI as (_ & _ & _ & (k & pk & Hk & Hpk & Hh & Hprio & _) & Hperm).
+  assert (Hhm : hdr st = hdr pm).
+  { rewrite Hh. apply (same_compat k m); [exact Hpk|exact Hpm|].
+    destruct (is_main pk) eqn:E1, (is_main pm) eqn:E2; try reflexivity.
+    - discriminate (Hmain k pk (proj1 (HS k) Hk) Hpk E1).
+    - discriminate (Hprio m pm (proj2 (HS m) Hm) Hpm E2). }
+  assert (Hp : Permutation (cl st) (received_clients parts o)).
+  { rewrite Hperm. apply clients_of_set, HS. }
+  unfold take_info, get_info. fold (cl st).
+  rewrite (Permutation_length Hp), num_clients_hdr, sort_info_hdr, Hhm.
+  replace (i32_max <? Z.of_nat (length (received_clients parts o))) with false by lia.
+  destruct (Z.of_nat (length (received_clients parts o)) =? i_num_clients (hdr pm)) eqn:E; cbn [negb bind].
+  - apply Z.eqb_eq in E. split; [exact E|]. split; [apply sort_clients_canonical, Hp|].
+    split; [cbn [i_clients set_clients]; rewrite sort_clients_perm; exact Hp|]. split; reflexivity.
+  - apply Z.eqb_neq in E. exact E.
+Qed.
+
+(* the usual case: pm is any part of a 64-player legacy info / the main part of an extended info *)
+Theorem merge_complete_iff rep o m pm :
+  order_ok parts o = true -> (rep = false -> has_repeat o = false) ->
+  In m o -> nth_error parts m = Some pm -> (ver pm = V6Ex -> is_main pm = true) ->
+  Z.of_nat (length (received_clients parts o)) <= i32_max ->
+  exists st, merged rep parts o = Some st /\
+    match get_info st with
+    | Ok (i, st') =>
+      Z.of_nat (length (received_clients parts o)) = i_num_clients (p_info pm)
+      /\ i_clients i = sort_clients (received_clients parts o)
+      /\ Permutation (i_clients i) (received_clients parts o)
+      /\ set_clients i [] = hdr pm
+      /\ take_info st = Ok (i, {| p_info := default_info; p_received := u64_ones |})
+    | Err _ => Z.of_nat (length (received_clients parts o)) <> i_num_clients (p_info pm)
+    | _ => False
+    end.
+Proof.
+  intros Hok Hrep Hm Hpm Hmain. apply (merge_complete_gen rep o m pm Hok Hrep Hm Hpm).
+  intros j pj Hj Hpj Hmj. apply Hmain.
+  destruct (same_each _ _ Hpj) as (_ & Hv1 & _). destruct (same_each _ _ Hpm) as (_ & Hv2 & _).
+  unfold is_main in Hmj. apply andb_true_iff in Hmj as [E _]. apply siv_eqb_eq in E. congruence.
 Qed.
 
 End Family.
